@@ -1,6 +1,10 @@
 package yqlib
 
-import yaml "gopkg.in/yaml.v3"
+import (
+	"strings"
+
+	yaml "gopkg.in/yaml.v3"
+)
 
 // C16 — path, key and parent describe where a node actually is.
 
@@ -339,4 +343,117 @@ func VerifC16AfterRebuild() {
 	}
 	verifAssert(count >= 5, "C16/rebuild-node-count "+label)
 	verifCover("C16/rebuild/end")
+}
+
+// c16CheckTree: every node `..` reaches below root has a path that leads to itself from the root, its key is the last
+// path element and its parent is the node that holds it (the holder is found by walking the tree).
+func c16CheckTree(root *CandidateNode, label string) int {
+	res, err := vEval(vParse(".."), root)
+	if err != nil {
+		verifFail("C16/recursive-descent-failed " + label)
+	}
+	holder := map[*CandidateNode]*CandidateNode{}
+	var walk func(n *CandidateNode)
+	walk = func(n *CandidateNode) {
+		for _, c := range n.Content {
+			if _, seen := holder[c]; !seen {
+				holder[c] = n
+				walk(c)
+			}
+		}
+	}
+	walk(root)
+	count := 0
+	for _, nd := range vNodes(res) {
+		if nd == root {
+			continue
+		}
+		if _, inTree := holder[nd]; !inTree {
+			continue
+		}
+		pa := c16One("path", nd)
+		verifAssert(pa != nil, "C16/path-missing "+label)
+		if pa == nil {
+			continue
+		}
+		verifAssert(c16Follow(root, pa, 0) == nd, "C16/path-leads-to-node "+label)
+		kn := c16One("key", nd)
+		if len(pa.Content) > 0 {
+			verifAssert(kn != nil && verifConcreteBool(verifEqStr(kn.Value, pa.Content[len(pa.Content)-1].Value)), "C16/key-is-last-path-element "+label)
+		} else {
+			verifAssert(false, "C16/path-of-a-nested-node-is-empty "+label)
+		}
+		pn := c16One("parent", nd)
+		verifAssert(pn == holder[nd], "C16/parent-is-holder "+label)
+		count++
+	}
+	return count
+}
+
+// VerifC16Decoded: documents as the decoders other than YAML's build them (each decoder sets keys and parents with
+// code of its own): JSON through yq's UnmarshalJSON walk (reader stub of h_jsonstub.go) with every element slot drawn
+// from {number, null, string, [], {}, a nested array with a null}, CSV and TSV objects, XML through the real
+// tokenizer, and YAML for comparison.
+func VerifC16Decoded() {
+	slot := func(name string) string {
+		return []string{"1", "null", "\"s\"", "[]", "{}", "[null,2]", "{\"n\":null}"}[verifChoice(name, 7)]
+	}
+	var root *CandidateNode
+	var err error
+	label := ""
+	switch verifChoice("format", 5) {
+	case 0:
+		label = "json"
+		var text string
+		switch verifChoice("shape", 3) {
+		case 0:
+			text = "[" + slot("e0") + "," + slot("e1") + "," + slot("e2") + "]"
+		case 1:
+			text = "{\"a\":[" + slot("e0") + "," + slot("e1") + "],\"b\":" + slot("e2") + "}"
+		default:
+			text = "{\"a\":{\"b\":[[" + slot("e0") + "],{\"c\":" + slot("e1") + "}]}}"
+		}
+		verifObserve("text", text)
+		dec := NewJSONDecoder()
+		if dec.Init(strings.NewReader(text)) != nil {
+			verifFail("C16/decoder-init")
+		}
+		root, err = dec.Decode()
+	case 1:
+		label = "csv"
+		dec := NewCSVObjectDecoder(ConfiguredCsvPreferences)
+		if dec.Init(strings.NewReader("a,b\n1,2\n3,\n")) != nil {
+			verifFail("C16/decoder-init")
+		}
+		root, err = dec.Decode()
+	case 2:
+		label = "tsv"
+		dec := NewCSVObjectDecoder(ConfiguredTsvPreferences)
+		if dec.Init(strings.NewReader("a\tb\n1\t2\n")) != nil {
+			verifFail("C16/decoder-init")
+		}
+		root, err = dec.Decode()
+	case 3:
+		label = "xml"
+		verifXMLReal = true
+		dec := NewXMLDecoder(NewDefaultXmlPreferences())
+		if dec.Init(strings.NewReader("<r><a>1</a><a>2</a><b id=\"x\">t<c/></b><d></d></r>")) != nil {
+			verifFail("C16/decoder-init")
+		}
+		root, err = dec.Decode()
+	default:
+		label = "yaml"
+		dec := NewYamlDecoder(NewDefaultYamlPreferences())
+		if dec.Init(strings.NewReader("a: [1, ~, {b: }]\nc:\n- - x\n")) != nil {
+			verifFail("C16/decoder-init")
+		}
+		root, err = dec.Decode()
+	}
+	if err != nil || root == nil {
+		verifFail("C16/decode-failed decoded-by=" + label)
+		return
+	}
+	n := c16CheckTree(root, "decoded-by="+label)
+	verifAssert(n >= 2, "C16/decoded-node-count decoded-by="+label)
+	verifCover("C16/decoded/end")
 }
